@@ -241,7 +241,7 @@ func (e *explorer) visit(key uint64, pre, dev int) bool {
 
 // node runs the execution for prefix and returns the child prefixes within bounds.
 func (e *explorer) node(prefix []int, trace bool) [][]int {
-	r, x := e.runOne(prefix, trace, !trace)
+	r, x := e.runOne(prefix, trace, !trace && !e.scn.Single)
 	e.rep.Execs++
 	e.rep.Steps += int64(r.Steps)
 	if len(r.Choices) > e.rep.MaxChoices {
@@ -615,11 +615,126 @@ func Main(h *Harness) {
 		return workers[i], nil
 	}
 	violDistinct := map[string]bool{}
+	// Single-schedule scenarios are independent one-execution jobs: run them in
+	// parallel over the worker pool first.
+	singleDone := map[int]bool{}
+	{
+		var idx []int
+		for si := range scns {
+			if scns[si].Single && (*flagScn == "" || strings.Contains(scns[si].Name, *flagScn)) {
+				idx = append(idx, si)
+			}
+		}
+		if len(idx) > 1 {
+			var mu sync.Mutex
+			next := 0
+			var wg sync.WaitGroup
+			nw := procs
+			if nw > len(idx) {
+				nw = len(idx)
+			}
+			for wi := 0; wi < nw; wi++ {
+				w, err := getWorker(wi)
+				if err != nil {
+					fatal(rep, err)
+				}
+				wg.Add(1)
+				go func(w *worker) {
+					defer wg.Done()
+					for {
+						mu.Lock()
+						if next >= len(idx) || (!deadline.IsZero() && time.Now().After(deadline)) {
+							mu.Unlock()
+							return
+						}
+						si := idx[next]
+						next++
+						mu.Unlock()
+						sc := &scns[si]
+						r, err := w.do(task{Scn: si, PB: 0, Prefix: nil, Single: true, Epoch: 1000000 + si})
+						mu.Lock()
+						st := ScnStat{Name: sc.Name, DB: sc.DB, PBCompleted: 0, Exhaustive: true}
+						if err != nil {
+							st.Exhaustive = false
+							rep.Exhaustive = false
+							rep.Violations = append(rep.Violations, Violation{Scenario: sc.Name, Messages: []string{"CRASH worker process died: " + err.Error()}})
+							rep.Scenarios = append(rep.Scenarios, st)
+							singleDone[si] = true
+							mu.Unlock()
+							return
+						}
+						st.Executions, st.Transitions, st.Horizon, st.MaxChoices, st.Outcomes = r.Execs, r.Steps, r.Horizon, r.MaxChoices, len(r.Obs)
+						st.States = r.Steps
+						for k, v := range r.Obs {
+							obsAll[sc.Name+"/"+k] = v
+						}
+						for k, v := range r.Known {
+							if _, ok := rep.Known[k]; !ok {
+								rep.Known[k] = v
+							}
+						}
+						for _, v := range r.Viol {
+							rest := splitKnown(v.Messages, known, rep.Known)
+							if len(rest) == 0 {
+								continue
+							}
+							v.Messages = rest
+							v.Repro = -1 // confirmed below
+							rep.Violations = append(rep.Violations, v)
+							st.Exhaustive = false
+						}
+						rep.Scenarios = append(rep.Scenarios, st)
+						rep.Executions += st.Executions
+						rep.Transitions += st.Transitions
+						rep.States += st.States
+						singleDone[si] = true
+						mu.Unlock()
+					}
+				}(w)
+			}
+			wg.Wait()
+			// confirm determinism of what was found
+			var kept []Violation
+			seenSig := map[string]bool{}
+			for _, v := range rep.Violations {
+				if v.Repro != -1 {
+					kept = append(kept, v)
+					continue
+				}
+				sig := v.Scenario + "|" + v.Messages[0]
+				if seenSig[sig] || len(kept) >= *flagMaxViol {
+					continue
+				}
+				seenSig[sig] = true
+				si := 0
+				for i := range scns {
+					if scns[i].Name == v.Scenario {
+						si = i
+					}
+				}
+				v.Repro = confirm(getWorker, si, 0, 2000000+si*8, &v)
+				violDistinct[sig] = true
+				kept = append(kept, v)
+			}
+			rep.Violations = kept
+			for _, v := range rep.Violations {
+				if v.Repro >= 5 || strings.HasPrefix(v.Messages[0], "CRASH") {
+					rep.Exhaustive = false
+				}
+			}
+		}
+	}
 scnLoop:
 	for si := range scns {
 		sc := &scns[si]
 		if *flagScn != "" && !strings.Contains(sc.Name, *flagScn) {
 			continue
+		}
+		if singleDone[si] {
+			continue
+		}
+		if len(rep.Violations) >= *flagMaxViol {
+			break scnLoop
 		}
 		st := ScnStat{Name: sc.Name, DB: sc.DB, PBCompleted: -1, Exhaustive: true}
 		scObs := map[string]bool{}
